@@ -2,6 +2,8 @@ FIXED_EXTRA = [
  ('C11', 'SBMLModel.copy resets the sensitivity flag', 'copy() of a model with sensitivities enabled keeps the flag while the new simulator computes none: simulate() of the copy fails and likelihoods never re-enable sensitivities'),
  ('C11', 're-attaches the dosing regimen and refreshes', 'PKPDModel.set_administration after set_dosing_regimen leaves the new simulator without protocol (dosing_regimen() still reports one); direct after indirect administration keeps the dose compartment\'s name tables'),
  ('C14', 'builds a hierarchical log-posterior for a single individual', 'ProblemModellingController.get_log_posterior with a population model and a one-individual dataset raises TypeError (bare LogLikelihood handed to HierarchicalLogLikelihood)'),
+ ('C18', 'removes pooled and heterogeneous dimensions by get_special_dims', 'HierarchicalLogPosterior.sample_initial_parameters finds special dimensions by isinstance: Covariate(Pooled/Heterogeneous) sub-models are not removed and the initial points cannot be assembled (broadcast ValueError)'),
+ ('C18', 'accepts posteriors without individual dimension', 'compute_pointwise_loglikelihood raises AttributeError on the (chain, draw) dataset SamplingController returns for an individual LogPosterior'),
 ]
 OPEN = [
  {'property': 'C11', 'key': 'C11|copy|sensitivities are switched off',
